@@ -30,6 +30,8 @@ struct verif_in {
 	int write_ret[NF];
 	int used_parity, valid_parity;
 	int recov_ok[LEV_MAX], has_parity[LEV_MAX], excluded[LEV_MAX], pwrite_ret[LEV_MAX];
+	/* block_is_enabled */
+	int badblockonly, badfileonly, be_bad, pexcl[LEV_MAX], be_disk[3], be_state[3], be_fexcl[3];
 	/* data verify region */
 	int dv_read_ret, dv_rehash;
 	unsigned dv_state, dv_slot;
@@ -377,6 +379,72 @@ void h_data_verify(void)
 			VERIF_ASSERT(g_dv_hash == 1 && g_dv_src == BUF[IN.dv_slot] && g_dv_len == (size_t)(IN.dv_read_ret % (BS + 1)) && g_dv_kind == (IN.dv_rehash ? HASH_SPOOKY2 : HASH_MURMUR3),
 				"the digest is taken over exactly the bytes read from that slot, with the previous hash kind exactly during a migration");
 	}
+	VERIF_CANARY();
+}
+
+
+/*
+ * block_is_enabled of check / fix (whole body extracted): which stripes a run visits.
+ *   -e on blocks: exactly the stripes marked bad; files-with-errors filter: bad stripes always, else by file; otherwise every
+ *   stripe as soon as one parity level is not excluded by the filters (a plain check / fix visits EVERY stripe, unused ones
+ *   included); with all parities excluded: the stripes holding a block of a file that the filters select.
+ */
+static struct snapraid_disk BD0, BD1, BD2;
+static struct snapraid_disk *const BDK[3] = { &BD0, &BD1, &BD2 };
+static struct snapraid_file BF0, BF1, BF2;
+static struct snapraid_file *const BFL[3] = { &BF0, &BF1, &BF2 };
+static unsigned char BBK0[64], BBK1[64], BBK2[64];
+static unsigned char *const BBK[3] = { BBK0, BBK1, BBK2 };
+static snapraid_info b_info_get(tommy_arrayblkof *a, block_off_t pos) { (void)a; VERIF_ASSERT(pos == 7, "info of the stripe asked"); return info_make(8, IN.be_bad != 0, 0, 0); }
+static struct snapraid_block *b_find(struct snapraid_disk *disk, block_off_t pos)
+{
+	int k, w = 0;
+	VERIF_ASSERT(pos == 7, "block of the stripe asked");
+	for (k = 0; k < 3; ++k) if (disk == BDK[k]) w = k;
+	return IN.be_state[w] ? (struct snapraid_block *)BBK[w] : BLOCK_NULL;
+}
+static struct snapraid_file *b_fileget(struct snapraid_disk *disk, block_off_t pos, block_off_t *fp) { int k, w = 0; (void)pos; (void)fp; for (k = 0; k < 3; ++k) if (disk == BDK[k]) w = k; return BFL[w]; }
+#define info_get b_info_get
+#define fs_par2block_find b_find
+#define fs_par2file_get b_fileget
+#include "region_check_block_is_enabled.c"
+#undef info_get
+#undef fs_par2block_find
+#undef fs_par2file_get
+
+void h_check_block_is_enabled(void)
+{
+	static struct snapraid_state ST;
+	static struct snapraid_handle H[3];
+	int k, r, any_parity = 0, any_file = 0, want;
+	unsigned l;
+	VERIF_INPUTS();
+	VERIF_ASSUME(IN.level >= 1 && IN.level <= LEV_MAX);
+	ST.level = IN.level;
+	ST.opt.badblockonly = IN.badblockonly != 0;
+	ST.opt.badfileonly = IN.badfileonly != 0;
+	for (l = 0; l < LEV_MAX; ++l) {
+		ST.parity[l].is_excluded_by_filter = IN.pexcl[l] != 0;
+		if (l < IN.level && !IN.pexcl[l])
+			any_parity = 1;
+	}
+	for (k = 0; k < 3; ++k) {
+		VERIF_ASSUME(IN.be_state[k] == 0 || IN.be_state[k] == BLOCK_STATE_BLK || IN.be_state[k] == BLOCK_STATE_CHG || IN.be_state[k] == BLOCK_STATE_REP || IN.be_state[k] == BLOCK_STATE_DELETED);
+		H[k].disk = IN.be_disk[k] ? BDK[k] : 0;
+		if (IN.be_state[k])
+			block_state_set((struct snapraid_block *)BBK[k], IN.be_state[k]);
+		BFL[k]->flag = IN.be_fexcl[k] ? FILE_IS_EXCLUDED : 0;
+		if (IN.be_disk[k] && (IN.be_state[k] == BLOCK_STATE_BLK || IN.be_state[k] == BLOCK_STATE_CHG || IN.be_state[k] == BLOCK_STATE_REP) && !IN.be_fexcl[k])
+			any_file = 1;
+	}
+	r = region_check_block_is_enabled(&ST, 7, H, 3);
+	if (IN.badblockonly)
+		want = IN.be_bad != 0;
+	else if (IN.badfileonly)
+		want = IN.be_bad || any_file;
+	else
+		want = any_parity || any_file;
+	VERIF_ASSERT((r != 0) == want, "a stripe is visited iff: -e on blocks: it is marked bad; otherwise some parity level is selected (every stripe of a plain check / fix), or it is bad, or it holds a block of a selected file");
 	VERIF_CANARY();
 }
 
